@@ -120,6 +120,13 @@ structure State where
   h : SdnsVerif.Model.Nsec3.HState := {}
   exp : SdnsVerif.Model.ProofExpiry.State := {}
 
+open SdnsVerif.Model.Admission in
+def authStr (H : SdnsVerif.Model.Nsec3.HashFn) (i : AuthIn) : String :=
+  let o := authorityStep H i
+  if o.servfail then "servfail" else
+  let k := if !o.marked then "none" else match authFamily i with | .nsec => "nsec" | .nsec3 => "nsec3"
+  s!"ok ad={boolStr o.ad} mark={k} agg={boolStr o.aggressive}"
+
 def stepNsec (st : State) (w : List String) : State × String :=
   match w with
   | ["z", "new", apex, cls, nodes] =>
@@ -198,6 +205,15 @@ def stepNsec (st : State) (w : List String) : State × String :=
     match parseName sg, parseName q, t.toNat?, c.toNat? with
     | some sg, some q, some t, some c => (st, aggStr (evaluateAggressiveNSEC q t c sg st.set))
     | _, _, _, _ => (st, "bad-op")
+  | ["z", "auth", sg, q, t, rc, v] =>
+    match parseName sg, parseName q, t.toNat? with
+    | some sg, some q, some t =>
+      -- the zone key is class IN: an in-zone record of another class has no signature that verifies
+      let clsOK := st.set.all fun r => !nameInZone r.owner sg || r.cls == 1
+      (st, authStr (fun _ => none) { signer := sg, q := q, t := t, nx := (rc == "nx"), reqCD := (v == "cd"),
+                                     signed := (v != "nosig"),
+                                     sigsGood := ((v == "good" || v == "cd") && clsOK), nsec := st.set, nsec3 := [] })
+    | _, _, _ => (st, "bad-op")
   | _ => (st, "bad-op")
 
 /-! ### NSEC3 ops -/
@@ -290,6 +306,14 @@ def stepNsec3 (st : State) (w : List String) : State × String :=
     | some sg, some gs, some ht =>
       (st, secStr (verifyWildcardNSEC3 (htFn ht) (st.h.set.filter fun r => nameInZone r.owner sg) sg gs))
     | _, _, _ => (st, "bad-op")
+  | ["h", "auth", sg, q, t, rc, v, ht] =>
+    match parseName sg, parseName q, t.toNat?, parseHT ht with
+    | some sg, some q, some t, some ht =>
+      let clsOK := st.h.set.all fun r => !nameInZone r.owner sg || r.cls == 1
+      (st, authStr (htFn ht) { signer := sg, q := q, t := t, nx := (rc == "nx"), reqCD := (v == "cd"),
+                               signed := (v != "nosig"),
+                               sigsGood := ((v == "good" || v == "cd") && clsOK), nsec := [], nsec3 := st.h.set })
+    | _, _, _, _ => (st, "bad-op")
   | ["h", "agg", sg, q, t, c, ht] =>
     match parseName sg, parseName q, t.toNat?, c.toNat?, parseHT ht with
     | some sg, some q, some t, some c, some ht =>
